@@ -7,6 +7,7 @@ import (
 	"context"
 	"encoding/binary"
 	"fmt"
+	"os"
 	"sort"
 	"sync"
 	"time"
@@ -17,6 +18,7 @@ import (
 	"github.com/twmb/franz-go/pkg/kmsg"
 	"github.com/twmb/franz-go/pkg/kversion"
 
+	"verif/lib/cowwatch"
 	"verif/lib/netctl"
 )
 
@@ -42,8 +44,25 @@ func NewClient(x *netctl.Exec, name string, c *kfake.Cluster, opts ...kgo.Opt) *
 		panic(fmt.Sprintf("kgo.NewClient(%s): %v", name, err))
 	}
 	x.OnCleanup(cl.Close)
+	if cowOracle {
+		// immutability oracle for the client's published copy-on-write maps
+		// (lib/cowwatch); C41 sets VERIF_COW=1
+		w := cowwatch.New()
+		if x.Debug {
+			cowwatch.Debug = x.Logf
+		}
+		x.OnQuiescent(func() {
+			for _, bad := range w.Check(cl) {
+				x.Violate("cow-mutated", "client %s: %s", name, bad)
+			}
+			x.Count("cow-checks", 1)
+		})
+		x.OnCleanup(func() { x.Count("cow-maps", w.Maps) })
+	}
 	return cl
 }
+
+var cowOracle = os.Getenv("VERIF_COW") == "1"
 
 // Helper returns an uncontrolled client (direct dial, no proxy).
 func Helper(x *netctl.Exec, c *kfake.Cluster, opts ...kgo.Opt) *kgo.Client {
